@@ -380,6 +380,8 @@ fn format(opt: opt::Opt) -> Result<i32> {
                                 Some(stylua_lib::Error::ParseError(err)) => {
                                     let structured_err =
                                         convert_parse_error_to_json(file, err.to_vec());
+                                    // The logger (which sets the exit code as a side effect) is bypassed here
+                                    EXIT_CODE.fetch_max(2, Ordering::SeqCst);
                                     // Force write to stderr directly
                                     // TODO: can we do this through error! instead?
                                     let stderr = stderr();
